@@ -70,7 +70,7 @@ def check_C05(chk):
             lines.append(f"perm id=r{v}-{rounds} v={v} rounds={rounds} s={r.hex(16)} k={r.hex(KLEN[v])}")
     groups = chunks(lines, 10)
     execs, seen, plans = [], set(), []
-    for cfg in (['prod', 'dbg', 'alt3', 'portable'] + (['alt', 'o2', 'shared'] if chk.thorough else [])):
+    for cfg in (['prod', 'dbg', 'alt3', 'portable', 'os'] + (['alt', 'o2', 'shared', 'uchar'] if chk.thorough else [])):
         exe = build_driver(chk.wd, cfg)
         if exe is None:
             continue
